@@ -76,4 +76,10 @@ var metas = map[string]*meta{
 		Rule: "html: every sequence of ≤4 (quick) / ≤5 (thorough) fragments over 30 tokens (script/style/iframe/object/form/svg/math/textarea/title/noscript openers, mixed-case and unterminated tags, comment delimiters, href=\"…, javascript: with and without an entity-encoded tab, onclick injection through quote breaking, stray quotes and angle brackets, style attribute openers, entities, NUL, a forbidden CSS declaration); css: every sequence of ≤5 / ≤6 tokens over {color, position, w\\69 dth, :, ;, red, url(javascript:x), /*, */, \", ', @import, {, }, \\, !important, space} placed (HTML-escaped) in a style attribute; text: every sequence of ≤5 / ≤6 tokens over {<, >, &, \", http://a.b/c, www.a.bc/, (, ), CR, LF, javascript:x, a, ', <script>}. Output of sanitize.HTML is re-parsed with x/net/html: no forbidden element, no on* attribute, no javascript: URL, and every style value parsed by an independent CSS-Syntax-3 declaration-list parser yields only allow-listed properties; TextToHTML output re-parsed must contain only <a href target> and <br> and its text content must equal the input. Every case is distinct and non-trivial (each input is run through the sanitiser).",
 		Assumptions: []string{"x/net/html's parser stands for the browser's HTML parser", "the CSS oracle implements CSS Syntax Level 3 declaration-list parsing (comments, strings, escapes, blocks, url())", "a javascript: href inside an anchor that TextToHTML itself generates is counted, not alarmed on (the statement only restricts the text rendering to escaped text + server-generated anchors)"},
 	},
+	"C17": {
+		ID: "C17", Level: "exploration",
+		Parts: []part{{Name: "seq", Bin: "std", Shards: 16}},
+		Rule: "seq: Lua scripts generated from the handler grammar — before.mail_from_accepted and before.rcpt_to_accepted ∈ {absent, allow(), defer(), deny(), deny(451,\"t\"), return nil, return 7, return \"x\", return {}, error()}, before.message_stored ∈ 16 variants (absent, nil, false, rewrite of mailboxes/subject/from/to, fresh inbound_message, garbage, error, partial rewrite through shared address objects followed by error/nil), after.* ∈ {absent, ok, error}: quick = every single handler and every pair, thorough = full product; plus a Go listener registered before/after the Lua one answering allow/deny (first answer wins); each script × 2 senders (accepted/rejected origin) × 5 recipient sets (accepted, rejected, discarded, mixed) run as a live SMTP session. Oracle: the hook-decision model — deny ⇒ exactly that code and text, allow ⇒ accepted against policy, no answer/garbage/error ⇒ policy, replacement ⇒ stored in exactly the returned mailboxes with the returned from/to/subject, no answer ⇒ exactly the policy-only delivery (catches partial rewrites leaking through shared pointers). Non-trivial = a message was stored; distinct (script, dialogue) pairs.",
+		Assumptions: []string{"an explicit smtp.defer() from the first listener followed by a second listener is not pinned by the statement", "other Lua programs than the grammar's are not covered"},
+	},
 }
